@@ -355,15 +355,15 @@ def run(ctx):
     ctx.extra["exhaustive_class_strings_up_to"] = depth
     ctx.extra["exhaustive_note"] = ("every class string up to that length x every grouping into calls x every write/writeSequence "
                                     "assignment (the two receiver kinds alternate); byte values within a class and wire splits are sampled")
-    for _ in range(ctx.pick(600, 20000)):
+    for _ in range(ctx.pick(400, 20000)):
         recv = rng.choice(["transport", "telnet"])
         traces.append(run_case({"mode": "app", "recv": recv}, delivery_plan(rng, random_app_ops(rng))))
-    for _ in range(ctx.pick(500, 15000)):
+    for _ in range(ctx.pick(400, 15000)):
         recv = rng.choice(["transport", "telnet", "telnet"])
         traces.append(run_case({"mode": "wire", "recv": recv}, delivery_plan(rng, random_wire_ops(rng, recv))))
     # spec -> code: behaviours generated by TLC from the specification are performed on the real objects; the
     # real wire bytes / peer output of every step must be what TLC predicted (checked again by TLC in validate()).
-    behs = ctx.simulate("TelnetDataSim", "TelnetDataSim.cfg", num=ctx.pick(30, 600), depth=14)
+    behs = ctx.simulate("TelnetDataSim", "TelnetDataSim.cfg", num=ctx.pick(20, 600), depth=14)
     drift = 0
     for i, b in enumerate(behs):
         ops = []
